@@ -15,5 +15,11 @@ impl vstd::std_specs::convert::FromSpecImpl<std::io::Error> for Error {
 //@ item src/error.rs / impl From<std::io::Error> for Error / fn from props=C15
 //@ enditem
 //@ close
+//@ if err_to_io
+//@ open src/error.rs / impl From<Error> for std::io::Error
+//@ item src/error.rs / impl From<Error> for std::io::Error / fn from props=C17 sigonly
+//@ enditem
+//@ close
+//@ endif
 } // mod error
 pub use crate::error::{Error, Result};
